@@ -1,7 +1,7 @@
 """C06 - memory reads/writes exact, complete, never wedge the subsystem."""
 import ast
 
-from ..astutil import dispatch_table, dotted, method_call
+from ..astutil import handler_names, dispatch_table, dotted, method_call
 from ..cfg import cfg_of, fact_key, norm, walk_own
 from ..consteval import UNKNOWN, fold_in
 from ..dataflow import must_facts
@@ -323,7 +323,32 @@ def check(ctx):
                     rem.append((f, c))
             if method_call(c, 'start') and 'self._write_requests[' in norm(c.func.value):
                 starts.append((f, c))
+            elif method_call(c, 'start') and isinstance(c.func.value, ast.Name):
+                # started through a local: what the local was bound to
+                gf_ = cfg_of(f)
+                nn_ = gf_.node_of(c)
+                ex_ = norm(gf_.expand_locals(nn_, c.func.value, pure_only=False)) if nn_ is not None else ''
+                if 'self._write_requests[' in ex_:
+                    c2 = ast.copy_location(ast.Call(func=ast.Attribute(value=ast.parse(ex_, mode='eval').body, attr='start', ctx=ast.Load()), args=[], keywords=[]), c)
+                    ast.fix_missing_locations(c2)
+                    starts.append((f, c2))
     ctx.need(ins and rem and starts, 'write queue operations not found')
+    # the request a completion callback reports is the one that completed: bound before the finished request left the queue, never
+    # re-bound to its successor on the way to the callback
+    hwq = mem.method('_handle_chan_write')
+    ghq = cfg_of(hwq)
+    popsq = [n_ for n_, c_ in ghq.find(lambda q: method_call(q, 'pop') and norm(q.func.value).startswith('self._write_requests['))]
+    wrong = []
+    for n_, c_ in ghq.find(lambda q: method_call(q, 'call') and norm(q.func.value) in ('self.mem_write_cb', 'self.mem_write_failed_cb')):
+        for a_ in c_.args:
+            base = a_
+            while isinstance(base, ast.Attribute):
+                base = base.value
+            if isinstance(base, ast.Name) and base.id not in hwq.params:
+                for d_ in ghq.reaching_defs(n_, base.id):
+                    if any(ghq.path_avoiding(p_, [d_], avoid=[]) is not None for p_ in popsq):
+                        wrong.append('%s bound at line %s after the pop' % (base.id, getattr(d_.ast, 'lineno', '?')))
+    ctx.inst('R5', hwq, 'callback-reports-the-completed-request', not wrong, 'the write callbacks are told which request completed; %s' % sorted(set(wrong)))
     for f, c in ins:
         ctx.inst('R5', f, 'enqueue-at-tail', c.func.attr == 'append', 'writes must be appended at the tail; found %s' % norm(c))
     for f, c in rem:
@@ -469,6 +494,26 @@ def deck_manager_rules(ctx):
     """R10 - DeckMemoryManager keeps one pending read / write / query record (its callbacks); each completion or failure of the underlying
     transfer forgets the record on every path before the user's callback runs, so the next request is accepted."""
     D = ctx.model.cls(DM, 'DeckMemoryManager')
+    # one unreadable deck record must not take the whole query down: decoding a record (struct layout AND the name bytes, which
+    # need not be valid UTF-8 - erased flash is all 0xFF) fails into "record skipped", whatever the failure is
+    dp = ctx.model.cls(DM, 'DeckMemory').method('_parse')
+    risky = [c_ for c_ in walk_own(dp.node) if isinstance(c_, ast.Call) and (dotted(c_.func) in ('struct.unpack', 'struct.unpack_from') or
+                                                                              (isinstance(c_.func, ast.Attribute) and c_.func.attr == 'decode'))]
+    tries = [t_ for t_ in walk_own(dp.node) if isinstance(t_, ast.Try)]
+    uncovered = []
+    for c_ in risky:
+        encl = [t_ for t_ in tries if any(x_ is c_ for b_ in t_.body for x_ in walk_own(b_))]
+        is_decode = isinstance(c_.func, ast.Attribute) and c_.func.attr == 'decode'
+        names = {n_ for t_ in encl for h_ in t_.handlers for n_ in handler_names(h_)}
+        wide = bool(names & {'<bare>', 'Exception', 'BaseException'})
+        okc = wide or (bool(names & {'UnicodeDecodeError', 'UnicodeError', 'ValueError'}) if is_decode else bool(names & {'struct.error', 'error'}))
+        # the two header bytes in front of the validity test are read outside the try in today's code: only calls made for a valid
+        # record count
+        if not okc and encl == [] and not is_decode and dotted(c_.func) == 'struct.unpack' and fold_in(dp, c_.args[0]) == '<BB':
+            continue
+        if not okc:
+            uncovered.append('%s (line %d) handled by %s' % (norm(c_)[:40], c_.lineno, sorted(names) or 'nothing'))
+    ctx.inst('R10', dp, 'bad-record-is-skipped', bool(risky) and not uncovered, 'a deck record that cannot be decoded is skipped, not raised into the reply handler: %s' % uncovered)
     clears = {'_clear_query_cb': ['self._query_complete_cb', 'self._query_failed_cb'], '_clear_read_cb': ['self._read_complete_cb', 'self._read_failed_cb'],
               '_clear_write_cb': ['self._write_complete_cb', 'self._write_failed_cb']}
     for cn, attrs in clears.items():
